@@ -148,7 +148,7 @@ func checkText(text string, rootName string) (*ebnf.EBNF, string, string) {
 	if err != nil {
 		return nil, "ebnf-does-not-parse", err.Error()
 	}
-	if len(e1.Productions) == 0 || e1.Productions[0].Production != rootName {
+	if len(e1.Productions) == 0 || (rootName != "" && e1.Productions[0].Production != rootName) {
 		first := ""
 		if len(e1.Productions) > 0 {
 			first = e1.Productions[0].Production
@@ -200,6 +200,10 @@ func runItem(w *hx.Worker, it ebnffam.Item) {
 	pan, msg := hx.Guard(func() { text, err = entry() })
 	if pan {
 		w.Violate(hx.Violation{Key: key, Class: "String-panics", Detail: map[string]any{"panic": msg}})
+		return
+	}
+	if he, ok := err.(*gramreg.HistoryError); ok {
+		w.Violate(hx.Violation{Key: key, Class: "String-depends-on-history", Detail: map[string]any{"fresh_parser": he.Fresh, "same_parser_after_parses_and_formatted_errors": he.AfterUse, "first_String_of_a_used_parser": he.FirstAfterUse}})
 		return
 	}
 	if err != nil {
@@ -309,24 +313,128 @@ func statics() []struct {
 			return p.String(), nil
 		}
 	}
-	lx := participle.Lexer(gramreg.Lexer)
+	// gramreg.Describe also checks that String() is the same after parses / formatted errors and when it
+	// is first called on a parser that has already been used
 	return []struct {
 		name string
 		root string
 		fn   func() (string, error)
 	}{
-		{"union", "UnionRoot", mk(func() (fmt.Stringer, error) {
-			return participle.Build[UnionRoot](lx, participle.Union[Value](StrV{}, NumV{}))
-		})},
-		{"recursive", "RecExpr", mk(func() (fmt.Stringer, error) { return participle.Build[RecExpr](lx) })},
-		{"mutual", "MutX", mk(func() (fmt.Stringer, error) { return participle.Build[MutX](lx) })},
-		{"anonymous", "AnonInner", mk(func() (fmt.Stringer, error) { return participle.Build[AnonInner](lx) })},
-		{"anonymous twins", "AnonTwins", mk(func() (fmt.Stringer, error) { return participle.Build[AnonTwins](lx) })},
-		{"embedded", "EmbRoot", mk(func() (fmt.Stringer, error) { return participle.Build[EmbRoot](lx) })},
-		{"lower-case root", "LowerRoot", mk(func() (fmt.Stringer, error) { return participle.Build[lowerRoot](lx) })},
-		{"quoted", "Quoted", mk(func() (fmt.Stringer, error) { return participle.Build[Quoted](lx) })},
+		{"union", "UnionRoot", func() (string, error) {
+			return gramreg.Describe[UnionRoot](participle.Union[Value](StrV{}, NumV{}))
+		}},
+		{"recursive", "RecExpr", func() (string, error) { return gramreg.Describe[RecExpr]() }},
+		{"mutual", "MutX", func() (string, error) { return gramreg.Describe[MutX]() }},
+		{"anonymous", "AnonInner", func() (string, error) { return gramreg.Describe[AnonInner]() }},
+		{"anonymous twins", "AnonTwins", func() (string, error) { return gramreg.Describe[AnonTwins]() }},
+		{"embedded", "EmbRoot", func() (string, error) { return gramreg.Describe[EmbRoot]() }},
+		{"lower-case root", "LowerRoot", func() (string, error) { return gramreg.Describe[lowerRoot]() }},
+		{"quoted", "Quoted", func() (string, error) { return gramreg.Describe[Quoted]() }},
 		{"default lexer", "RecExpr", mk(func() (fmt.Stringer, error) { return participle.Build[RecExpr]() })},
 	}
+}
+
+// runChains: grammars with many productions (a chain P0 .. Pn-1, each with an opening and a closing
+// literal of its own around the reference to the next): every production and every literal is printed once.
+func runChains(w *hx.Worker) {
+	strT := reflect.TypeOf("")
+	for _, n := range []int{2, 15, 16, 17, 18, 31, 32, 33, 34, 40, 65, 70, 130} {
+		key := fmt.Sprintf("static :: chain of %d productions", n)
+		w.Count("evaluations", 1)
+		w.Count("states", 1)
+		var t reflect.Type
+		for i := n - 1; i >= 0; i-- {
+			fs := []reflect.StructField{{Name: "K", Type: strT, Tag: reflect.StructTag(fmt.Sprintf(`@"k%d"`, i))}}
+			if t != nil {
+				fs = append(fs, reflect.StructField{Name: "Next", Type: reflect.PtrTo(t), Tag: `@@`})
+			}
+			fs = append(fs, reflect.StructField{Name: "E", Type: strT, Tag: reflect.StructTag(fmt.Sprintf(`@"e%d"`, i))})
+			t = reflect.StructOf(fs)
+		}
+		var text string
+		var err error
+		pan, msg := hx.Guard(func() {
+			var p *participle.Parser[any]
+			p, err = participle.Build[any](participle.Lexer(gramreg.Lexer), participle.Union[any](reflect.New(t).Elem().Interface()))
+			if err == nil {
+				text = p.String()
+			}
+		})
+		if pan || err != nil {
+			w.Violate(hx.Violation{Key: key, Class: "String-panics", Detail: map[string]any{"panic": msg, "err": fmt.Sprint(err)}})
+			continue
+		}
+		e1, cls, detail := checkText(text, "")
+		if cls != "" {
+			w.Violate(hx.Violation{Key: key, Class: cls, Detail: map[string]any{"ebnf": text, "detail": detail}})
+			continue
+		}
+		got, defs, _ := actual(e1)
+		bad := ""
+		for i := 0; i < n && bad == ""; i++ {
+			for _, l := range []string{fmt.Sprintf(`lit:"k%d"`, i), fmt.Sprintf(`lit:"e%d"`, i)} {
+				if got[l] != 1 {
+					bad = fmt.Sprintf("%s occurs %d times in the EBNF, once in the grammar", l, got[l])
+				}
+			}
+		}
+		if bad == "" && len(defs) < n {
+			bad = fmt.Sprintf("%d productions defined, the grammar has %d struct productions", len(defs), n)
+		}
+		if bad != "" {
+			w.Violate(hx.Violation{Key: key, Class: "ebnf-incomplete-or-altered", Detail: map[string]any{"ebnf": text, "diff": bad}})
+			continue
+		}
+		w.DistinctS(fmt.Sprint(n, len(text)))
+	}
+}
+
+// runDerived: ParserForProduction gives a parser for a sub-production; it prints that production's grammar
+// and leaves the original parser's String() as it was.
+func runDerived(w *hx.Worker) {
+	key := "static :: ParserForProduction"
+	w.Count("evaluations", 1)
+	var before, after, sub, sub2 string
+	pan, msg := hx.Guard(func() {
+		p, err := participle.Build[UnionRoot](participle.Lexer(gramreg.Lexer), participle.Union[Value](StrV{}, NumV{}))
+		if err != nil {
+			panic(err)
+		}
+		before = p.String()
+		d, err := participle.ParserForProduction[StrV](p)
+		if err != nil {
+			panic(err)
+		}
+		sub = d.String()
+		after = p.String()
+		d2, err := participle.ParserForProduction[NumV](p)
+		if err != nil {
+			panic(err)
+		}
+		sub2 = d2.String()
+		if p.String() != after || d.String() != sub {
+			after = "String() of the original / first derived parser changed after a second ParserForProduction: " + p.String() + " / " + d.String()
+		}
+	})
+	if pan {
+		w.Violate(hx.Violation{Key: key, Class: "String-panics", Detail: map[string]any{"panic": msg}})
+		return
+	}
+	if before != after {
+		w.Violate(hx.Violation{Key: key, Class: "String-depends-on-history", Detail: map[string]any{"before_ParserForProduction": before, "after": after}})
+		return
+	}
+	for _, t := range []string{before, sub, sub2} {
+		if _, cls, detail := checkText(t, ""); cls != "" {
+			w.Violate(hx.Violation{Key: key, Class: cls, Detail: map[string]any{"ebnf": t, "detail": detail}})
+			return
+		}
+	}
+	if !strings.Contains(before, "UnionRoot") || !strings.Contains(sub, "StrV") || !strings.Contains(sub2, "NumV") {
+		w.Violate(hx.Violation{Key: key, Class: "ebnf-incomplete-or-altered", Detail: map[string]any{"original": before, "derived_StrV": sub, "derived_NumV": sub2}})
+		return
+	}
+	w.DistinctS(before + sub + sub2)
 }
 
 var _ = lexer.EOF
@@ -368,6 +476,8 @@ func runTwins(w *hx.Worker) {
 
 func runStatics(w *hx.Worker) {
 	runTwins(w)
+	runChains(w)
+	runDerived(w)
 	for _, s := range statics() {
 		key := "static :: " + s.name
 		w.Count("evaluations", 1)
@@ -377,6 +487,10 @@ func runStatics(w *hx.Worker) {
 		pan, msg := hx.Guard(func() { text, err = s.fn() })
 		if pan {
 			w.Violate(hx.Violation{Key: key, Class: "String-panics", Detail: map[string]any{"panic": msg}})
+			continue
+		}
+		if he, ok := err.(*gramreg.HistoryError); ok {
+			w.Violate(hx.Violation{Key: key, Class: "String-depends-on-history", Detail: map[string]any{"fresh_parser": he.Fresh, "same_parser_after_parses_and_formatted_errors": he.AfterUse, "first_String_of_a_used_parser": he.FirstAfterUse}})
 			continue
 		}
 		if err != nil {
@@ -414,7 +528,7 @@ func plan(c *hx.Ctx) *hx.Plan {
 			}
 			return items[i].Family + " :: " + items[i].Root.Source()
 		},
-		Rule:   "statically typed grammars emitted at check time (named Go types): operator-nesting family (every stacking of two modifiers through a group over 6 atoms, [x]/{x} spellings), ~/(?=)/(?!) applied to literals, references, groups and modified terms and stacked on each other, literals needing escapes and typed literals, sub-productions (nested, referenced twice), a slice of the core family; plus hand-written unions, recursion, mutual recursion, anonymous and embedded struct types. For each: Parser.String() under recover; ebnf.ParseString succeeds; root first; every referenced production defined exactly once; the multiset of literals / token references / production references / operators of the parsed EBNF equals the grammar's (reference: the model AST); String() of the parsed EBNF re-parses to a deep-equal tree. evaluations = grammars",
+		Rule:   "statically typed grammars emitted at check time (named Go types): operator-nesting family (every stacking of two modifiers through a group over 6 atoms, [x]/{x} spellings), ~/(?=)/(?!) applied to literals, references, groups and modified terms and stacked on each other, literals needing escapes and typed literals, sub-productions (nested, referenced twice), a slice of the core family; plus hand-written unions, recursion, mutual recursion, anonymous and embedded struct types, chains of 2..130 productions, parsers derived with ParserForProduction. String() is taken from a fresh parser, again after parses and formatted errors, and first-time from a second, already used parser: all three are equal. For each: Parser.String() under recover; ebnf.ParseString succeeds; root first; every referenced production defined exactly once; the multiset of literals / token references / production references / operators of the parsed EBNF equals the grammar's (reference: the model AST); String() of the parsed EBNF re-parses to a deep-equal tree. evaluations = grammars",
 		Bounds: map[string]any{"families": fam, "statics": len(statics())},
 		Assume: []string{"completeness is judged as multiset equality of leaves and operators, not tree isomorphism (the statement does not demand grouping fidelity)"},
 	}
